@@ -1,7 +1,7 @@
 from props import COMMON_TRUSTED
 
 SPEC = {
-    "translators": ["tr_reader.py"],
+    "translators": ["tr_reader.py", "tr_depsize.py"],
     "harness": "c14",
     "cases": {"quick": 30000, "thorough": 600000},
     "profiles": {"quick": ["debug", "release"], "thorough": ["debug", "release"]},
